@@ -771,7 +771,7 @@ def _run_json(cmd, env=None, timeout=600):
 
 def c16_plan(pid, tier, seed, t0):
     rnd = random.Random(seed)
-    rundir = os.path.join(o.WORK, "run", "%d-c16" % os.getpid())
+    rundir = o.register_rundir(os.path.join(o.WORK, "run", "%d-c16" % os.getpid()))
     os.makedirs(rundir, exist_ok=True)
     merged = o.merge([])
     obs = merged["observed"]
@@ -852,6 +852,8 @@ def c16_plan(pid, tier, seed, t0):
         jobs.append(("runtimes", [conc, "runtimes", str([2, 4, 8, 4][k % 4]), str(250 if tier == "quick" else 4000), str(seed * 53 + k)]))
     for k in range(12 if tier == "quick" else 300):
         jobs.append(("twins", [conc, "twins", str([2, 4, 8][k % 3]), str(400 if tier == "quick" else 4000), str(seed * 71 + k)]))
+    for k in range(6 if tier == "quick" else 120):
+        jobs.append(("hotchurn", [conc, "hotchurn", str([8, 4, 16][k % 3]), str(3000 if tier == "quick" else 10000), str(seed * 91 + k)]))
     first_runs = 200 if tier == "quick" else 10000
     for k in range(first_runs):
         spins = rnd.choice([0, 0, 1000, 10000, 100000, 1000000, 3000000])
@@ -923,6 +925,8 @@ def c16_plan(pid, tier, seed, t0):
         "length (0..100 calls) the threads are released together, each compiles its own *_by / map expressions (same shapes and offsets, different "
         "members) through the shared runtime and searches each four times while calling type() on every JSON type and all 26 built-ins in a "
         "thread-specific rotation, and the runtime is swept sequentially afterwards; truth comes from private runtimes used before the round. "
+        "'hotchurn' runs make half of the threads compile the same six expressions in a loop (tree compared with parse(), result with the "
+        "sequential one) while the other half compile never-seen texts as fast as they can, for 3 s (quick) / 10 s; "
         "'twins' rounds release all threads into compile at once with RELATED texts — one 77-byte expression behind 0..3 leading blanks (its "
         "runtime error must be reported at the shifted offset) and 80-byte literals differing in a few characters, compiled twice by their thread "
         "and once more sequentially after the join, values known by construction. "
@@ -950,7 +954,7 @@ PLANS["C16"] = c16_plan
 
 def c17_plan(pid, tier, seed, t0):
     configs = ["n-default", "n-sync", "n-spec", "n-syncspec", "chk"]
-    rundir = os.path.join(o.WORK, "run", "%d-c17" % os.getpid())
+    rundir = o.register_rundir(os.path.join(o.WORK, "run", "%d-c17" % os.getpid()))
     os.makedirs(rundir, exist_ok=True)
     merged = o.merge([])
     staged = {}
